@@ -322,6 +322,12 @@ class Interp:
             exp = sorted(m2['ids'][i] for i in self.expected_cx(m2, box))
             if sorted(sel['id']) != exp:
                 raise Failure(B + ['dask.cx', 'wrong-rows', 'active=' + g], f'ids={sorted(sel["id"])} expected {exp}')
+            # partition pruning (bounds=) must use the recorded extents of the requested geometry column
+            pruned = lib(B + ['read_parquet_dask-bounds'], lambda: read_parquet_dask(path, geometry=g, bounds=tuple(box)).compute())
+            if set(exp) - set(pruned['id']):
+                raise Failure(B + ['bounds-pruning-by-wrong-column', 'active=' + g], f'rows {sorted(set(exp) - set(pruned["id"]))} intersect {box} but their partitions were pruned')
+            if len(pruned) and pruned.geometry.name != g:
+                raise Failure(B + ['active-geometry-wrong', 'after-bounds'], f'{pruned.geometry.name} expected {g}')
         elif op == 'sjoin':
             a = mdl['active']
             if n == 0:
